@@ -23,6 +23,18 @@ def ttls (m : Msg) : String :=
   let l := m.rrs.map (fun r => toString r.ttl.toNat)
   if l.isEmpty then "-" else String.intercalate "," l
 
+/-- `hit.<ns>` | `fix.<ttl>` | `mm.<min>.<max>` | `aff.<a>.<b>` (ttl := a * ttl + b) -/
+def ev? (s : String) : Option Ev :=
+  match s.splitOn "." with
+  | ["hit", t] => do pure (.hit (← t.toNat?))
+  | ["fix", t] => do pure (.rewrite (setRR (UInt32.ofNat (← t.toNat?))))
+  | ["mm", a, b] => do pure (.rewrite (clampRR (UInt32.ofNat (← a.toNat?)) (UInt32.ofNat (← b.toNat?))))
+  | ["aff", a, b] => do
+    let a ← a.toNat?
+    let b ← b.toNat?
+    pure (.rewrite (fun r => if r.isOpt then r else { r with ttl := UInt32.ofNat a * r.ttl + UInt32.ofNat b }))
+  | _ => none
+
 def handle : List String → String
   | ["adm", lazy, rcode, tc, rrs] =>
     match lazy.toInt?, msg? rcode tc rrs with
@@ -59,6 +71,22 @@ def handle : List String → String
           | .fresh r => s!"{tag r} fresh {ttls r}"
           | .stale r => s!"{tag r} stale {ttls r}")
     | _, _, _, _, _, _, _, _, _ => "bad-op"
+  | ["alias", sc, hc, lazy, st, rcode, tc, rrs, evs] =>
+    -- the reply `rrs` is stored at T (if admitted); then in-place rewrites of the live reply and queries at T + offset
+    match Hex.bool? sc, Hex.bool? hc, lazy.toInt?, st.toNat?, msg? rcode tc rrs, (evs.splitOn "/").mapM ev? with
+    | some sc, some hc, some lz, some st, some m, some es =>
+      let T : Nat := 1000000000000000000
+      match store lz m T with
+      | none => "none"
+      | some it =>
+        let out := aliasRun sc hc (decide (lz > 0)) (UInt32.ofNat st) (!sc) it (es.map fun
+          | .hit t => .hit (T + t)
+          | e => e)
+        String.intercalate "/" (out.map fun
+          | .miss => "miss"
+          | .fresh r => s!"fresh {ttls r}"
+          | .stale r => s!"stale {ttls r}")
+    | _, _, _, _, _, _ => "bad-op"
   | _ => "bad-op"
 
 end Driver.C05
